@@ -121,6 +121,22 @@ def world_for(case, variant):
         files[f'{root}/out.bin'] = v['pre_image'] if isinstance(v['pre_image'], str) else OLD
         if case.get('sink') == 'file':
             files[f'{root}/list.txt'] = v.get('pre_list', OLD)
+    na = case.get('nonascii')
+    if na:
+        # text outside ASCII (stored as UTF-8, like every editor does today): in comments of every source file, in a
+        # string that becomes bytes, in a comment of the ISA file. What the locale is must not matter for any of it
+        if na in ('comment', 'both'):
+            for pth in list(files):
+                if pth.endswith('.asm'):
+                    files[pth] += '; Gr\u00f6\u00dfe \u00b5 caf\u00e9\n'
+        if na in ('string', 'both'):
+            mp = f'{root}/main.asm'
+            files[mp] = files[mp].replace(gen.SENTINEL, '  .cstr "caf\u00e9 \u00b5"\n' + gen.SENTINEL)
+        if na == 'isa' and case['isa_name'].endswith('yaml'):
+            ip = f'{root}/{case["isa_name"]}'
+            files[ip] = '# Gr\u00f6\u00dfe: 8 bit\n' + files[ip]
+        files = {pth: (t.encode('utf-8').decode('latin-1') if pth.endswith(('.asm', '.yaml', '.json')) else t)
+                 for pth, t in files.items()}
     env = {'HOME': v.get('home', '/sim/home'), 'PWD': cwd}
     env.update(v.get('env', {}))
     w = {'files': files, 'links': links, 'argv': argv, 'cwd': cwd, 'env': env,
@@ -136,7 +152,7 @@ def world_for(case, variant):
 def outputs(r, root, case, stdout_encoding='utf-8'):
     def norm(t):
         return None if t is None else t.replace(root + '/', '').replace(root, '.')
-    if stdout_encoding not in ('utf-8', 'ascii', 'latin-1') and r.get('stdout'):
+    if stdout_encoding not in ('ascii', 'latin-1') and r.get('stdout'):
         # the console's encoding changes the BYTES on stdout, not the text: compare text
         r = dict(r, stdout=r['stdout'].encode('latin-1').decode(stdout_encoding, 'replace').lstrip('\ufeff'))
     out = {'failed': r['kind'] == 'exception' or (r['kind'] == 'exit' and r['exit'] != 0), 'kind': r['kind'],
@@ -208,6 +224,10 @@ def xproc_run(case, hashseeds, tag):
                 env['PYTHONOPTIMIZE'] = str(1 + hs % 2)         # python -O / -OO
             if hs % 4 == 2:
                 env.update({'LANG': 'C', 'PYTHONUTF8': '0', 'COLUMNS': '30'})
+                if case.get('nonascii'):
+                    # ASCII locale for everything the tool opens, but a pipe that can carry the listing (the
+                    # ASCII-console case is the open finding C15-ascii-console-cannot-print-listing, in-simulator tier)
+                    env['PYTHONIOENCODING'] = 'utf-8'
             try:
                 cp = subprocess.run([py, '-m', 'bespokeasm'] + w['argv'][1:], cwd=root, env=env,
                                     capture_output=True, timeout=60)
@@ -257,6 +277,23 @@ def check_case(case):
     return {'violations': v, 'observed': obs, 'r0': r0, 'r1': r1}
 
 
+def attributable(case, vclass, finding):
+    """Open finding C15-ascii-console-cannot-print-listing: a violation belongs to it only if it is the exit status
+    that differs, the variant run died of UnicodeEncodeError on an ASCII console, and giving that same variant a
+    console that can represent the text makes every difference disappear."""
+    if finding['id'] != 'C15-ascii-console-cannot-print-listing':
+        return False
+    v = case.get('variant', {})
+    if vclass != 'D-exit-status-differs' or not case.get('nonascii') or v.get('stdout_encoding') != 'ascii':
+        return False
+    res = check_case(case)
+    if vclass not in res['violations'] or 'UnicodeEncodeError' not in res['observed'].get('var', {}).get('exc', ''):
+        return False
+    c2 = copy.deepcopy(case)
+    c2['variant']['stdout_encoding'] = 'utf-8'
+    return not check_case(c2)['violations']
+
+
 def shrink_paths(case):
     paths = []
 
@@ -283,6 +320,12 @@ def simplify(case):
         c = copy.deepcopy(case)
         del c['variant']['env'][k]
         yield c
+    if case.get('nonascii'):
+        for alt in ('comment', 'string', 'isa', None):
+            if alt != case['nonascii']:
+                c = copy.deepcopy(case)
+                c['nonascii'] = alt
+                yield c
 
 
 # -----------------------------------------------------------------------------------------------
@@ -349,6 +392,9 @@ def explore(subseed, cfg):
         main['items'][2:2] = [{'t': 'line', 's': x, 'r': x} for x in (
             '#ifdef LVL', '  .byte LVL', '#else', '  .byte $4C', '#endif')]
         pr['cli_symbols'] = 1
+    if rnd.random() < 0.3:
+        case['nonascii'] = rnd.choice(['comment', 'string', 'both', 'both', 'isa'])
+        pr['non_ascii_text_in_inputs'] = 1
     ambiguous = False
     files = progtree.all_files(main)
     if len(files) > 1 and rnd.random() < 0.2:
@@ -435,7 +481,7 @@ def explore(subseed, cfg):
         stale = ''.join(chr(ord(ch) ^ 0x5A) for ch in o0['image'])
         v = {'pre_image': stale}
         if case.get('sink') == 'file' and o0.get('pretty_file'):
-            v['pre_list'] = o0['pretty_file'].swapcase()[::-1]
+            v['pre_list'] = ''.join(ch.swapcase() if ch.isascii() else ch for ch in o0['pretty_file'])[::-1]
         do(v, 'single:pre-same-size')
         pr['stale_output_same_size'] = pr.get('stale_output_same_size', 0) + 1
     for _ in range(cfg.get('variants', 10) - 6):
